@@ -212,10 +212,15 @@ def query_path(I, res, prop, shape):
         ref_conds.append((ctd, exprs))
     order_key = None
     rev = False
+    orders = []
     if with_order:
-        order_key = COLS[I.path.choose(len(COLS), "order-key")]
-        rev = I.path.choose(2, "rev") == 1
-        q = I.call_raw("store::query::Query::push_order", [q, order_key, rev], None)
+        first = I.path.choose(len(COLS), "order-key")
+        ks = [COLS[first]] + ([COLS[1 - first]] if with_order >= 2 else [])
+        for ok_ in ks:
+            rv = I.path.choose(2, "rev") == 1
+            orders.append((ok_, rv))
+            q = I.call_raw("store::query::Query::push_order", [q, ok_, rv], None)
+        order_key, rev = orders[0]
     offset, limit = 0, None
     if paging:
         offset = I.path.choose(3, "offset")
@@ -225,7 +230,7 @@ def query_path(I, res, prop, shape):
     names = [f[0] for f in fields_of(I, "Model")]
     cx.recipe = dict(kind="query", rows=[{fn: _name(x) for fn, x in zip(names, rec.f)} for rid, rec in rows],
                      conds=[dict(type=_name(ctd), exprs=[dict(op=_name(o), key=k, value=_name(v)) for o, k, v in exprs]) for ctd, exprs in ref_conds],
-                     order=[[order_key, rev]] if with_order else [], offset=offset if paging else None, limit=limit if paging else None)
+                     order=[[a, b] for a, b in orders], offset=offset if paging else None, limit=limit if paging else None)
     r = cx.coll_call(c, "Model", "query", Ptr([q], 0))
     res.witnesses += 1
     if r.d != 0:
@@ -258,10 +263,15 @@ def query_path(I, res, prop, shape):
     total = z3.Sum([z3.If(sats[rid], 1, 0) for rid, _ in rows])
     cx.obligation(total == count, "query:count:%s" % shape_tag, "count=%r differs from the number of matching rows" % (count,))
     if with_order:
-        keys = [recs[i].f[fidx[order_key]] for i in got_ids]
-        for a, b in zip(keys, keys[1:]):
-            cx.obligation((a >= b) if rev else (a <= b), "query:order:numeric:%s" % ("desc" if rev else "asc"),
-                          "rows are not ordered numerically by %s" % order_key)
+        for ia, ib in zip(got_ids, got_ids[1:]):
+            # lexicographic order over the requested keys, each in its own direction
+            f = z3.BoolVal(True)
+            for ok_, rv in reversed(orders):
+                a, b = recs[ia].f[fidx[ok_]], recs[ib].f[fidx[ok_]]
+                lt = (a > b) if rv else (a < b)
+                f = z3.Or(lt, z3.And(a == b, f))
+            cx.obligation(f, "query:order:%s" % ("numeric:" + ("desc" if rev else "asc") if len(orders) == 1 else "multi-key:" + ",".join("desc" if r else "asc" for _, r in orders)),
+                          "rows are not ordered by %s" % (orders,))
     if paging:
         lim = limit
         cx.obligation(page.f[pf["page_size"]] == lim, "query:page_size", "page_size")
@@ -357,10 +367,13 @@ def confirm(v):
                     roles.add("query:filter:%s:%s" % (shape_tag, "spurious-row" if x["id"] in r["ids"] else "missing-row"))
         if r["count"] != len(match):
             roles.add("query:count:%s" % shape_tag)
-        for o in q["order"]:
-            ks = [by_id[i][o[0]] for i in r["ids"]]
-            if any((a < b) if o[1] else (a > b) for a, b in zip(ks, ks[1:])):
-                roles.add("query:order:numeric:%s" % ("desc" if o[1] else "asc"))
+        if q["order"]:
+            def keyf(i):
+                return tuple((-by_id[i][o[0]]) if o[1] else by_id[i][o[0]] for o in q["order"])
+            ks = [keyf(i) for i in r["ids"]]
+            if any(a > b for a, b in zip(ks, ks[1:])):
+                o = q["order"]
+                roles.add("query:order:%s" % ("numeric:" + ("desc" if o[0][1] else "asc") if len(o) == 1 else "multi-key:" + ",".join("desc" if x[1] else "asc" for x in o)))
         if q["limit"] is not None:
             lim, off = q["limit"], q["offset"]
             if r["page_size"] != lim:
@@ -413,3 +426,213 @@ def confirm_all(res):
         v.confirmed, v.replay = okc, info
         seen[v.role] = (okc, info)
     return res
+
+
+# ---------------------------------------------------------------------------------------------------
+# C09 acknowledged delivery: the retry automaton of the store (tick / ack / action / redo / clear)
+
+OPS9 = ["tick", "ack", "action", "redo", "clear"]
+
+
+def retry_path(I, res, prop, n, k):
+    cx = Ctx(I, res, prop, "retry:n=%d,k=%d" % (n, k))
+    W = cx.W
+    store = I.call_raw("store::store::Store::new", [], None)
+    I.call_raw("store::store::Store::init", [Ptr([store], 0)], None)
+    msgs_coll = I.call_raw("store::store::Store::messages", [Ptr([store], 0)], None)
+    limit = cx.int("max_retry", 1, 3)
+    interval = cx.int("interval", 1, 50)
+    T0 = 1000
+    # symbolic clock: every reading is a fresh value, non-decreasing
+    clock = {"last": z3.IntVal(T0), "n": 0}
+
+    def now():
+        clock["n"] += 1
+        t = cx.int("t%d" % clock["n"], T0, T0 + 400)
+        I.assume(t >= clock["last"])
+        clock["last"] = t
+        return t
+
+    W.now = now
+    names = [f[0] for f in fields_of(I, "Message")]
+    fi = {f: i for i, f in enumerate(names)}
+    recs = []
+    for i in range(n):
+        rec = sym_record(cx, "Message", "o", "m%d" % i)
+        st = cx.int("status%d" % i, 0, 3)
+        rt = cx.int("retry%d" % i, 0, 4)
+        ut = cx.int("utime%d" % i, T0 - 200, T0)
+        rec.f[fi["status"]] = Enum("MessageStatus", st, [], None)
+        rec.f[fi["retry_times"]] = rt
+        rec.f[fi["update_time"]] = ut
+        rec.f[fi["pid"]] = "p%d" % (i % 2)
+        rec.f[fi["tid"]] = "t%d" % i
+        I.call_raw("<dyn store::DbCollection<Item = store::data::message::Message> as store::DbCollection>::create", [Ptr(msgs_coll.c, 0), Ptr([rec], 0)], None)
+        recs.append(dict(id="m%d" % i, status=st, retry=rt, utime=ut, pid="p%d" % (i % 2), tid="t%d" % i, present=True))
+    delivered = []
+
+    def handler(I, args):
+        m = deref_all(args[0])
+        mf = {f[0]: i for i, f in enumerate(I.p.src.struct_fields("Message@acts/src/event/message.rs"))}
+        delivered.append((m.f[mf["id"]], m.f[mf["retry_times"]]))
+        return UNIT
+
+    from mirsym.interp import PyFn
+    log = []
+    for step in range(k):
+        op = OPS9[I.path.choose(len(OPS9), "op")]
+        tgt = I.path.choose(n, "target") if op in ("ack", "action") else None
+        log.append((op, tgt))
+        if op == "tick":
+            del delivered[:]
+            before = [dict(r) for r in recs]
+            # the clock reading used for the staleness test is the first reading inside the call
+            nreads = clock["n"]
+            I.call_raw("cache::store::<impl store::store::Store>::with_no_response_messages", [Ptr([store], 0), interval, limit, PyFn(handler)], None)
+            tq = cx.sym["t%d" % (nreads + 1)]
+            res.witnesses += 1
+            rd = nreads + 1
+            for r in recs:
+                if not r["present"]:
+                    continue
+                stale = z3.And(r["status"] == 0, r["utime"] < tq - interval)
+                is_stale = I.truth(stale, "stale?")
+                tw = None
+                if is_stale:
+                    rd += 1
+                    tw = cx.sym.get("t%d" % rd)
+                redeliver = z3.And(stale, r["retry"] < limit)
+                to_error = z3.And(stale, r["retry"] >= limit)
+                was = [d for d in delivered if d[0] == r["id"]]
+                if len(was) > 1:
+                    cx.viol("retry:delivered-twice-in-one-tick", "message %s delivered %d times by one tick" % (r["id"], len(was)))
+                got = len(was) >= 1
+                cx.obligation(redeliver if got else z3.Not(redeliver), "retry:tick:%s" % ("spurious-redelivery" if got else "missing-redelivery"),
+                              "message %s %s redelivered by the tick (log %s)" % (r["id"], "was" if got else "was not", log))
+                if got:
+                    cx.obligation(was[0][1] == r["retry"] + 1, "retry:tick:retry-count", "redelivery of %s carries retry_times=%r, expected previous+1" % (r["id"], was[0][1]))
+                # reference post-state
+                r["status"] = z3.If(to_error, 3, r["status"])
+                r["retry"] = z3.If(redeliver, r["retry"] + 1, r["retry"])
+                if is_stale:
+                    if tw is None:
+                        cx.viol("retry:tick:no-timestamp", "stale message %s was not re-stamped" % r["id"])
+                    else:
+                        r["utime"] = tw
+        elif op == "ack":
+            n0 = clock["n"]
+            I.call_raw("cache::store::<impl store::store::Store>::set_message", [Ptr([store], 0), recs[tgt]["id"], Enum("MessageStatus", 1, [], "Acked")], None)
+            if recs[tgt]["present"]:
+                recs[tgt]["status"] = z3.IntVal(1)
+                recs[tgt]["utime"] = cx.sym.get("t%d" % (n0 + 1), clock["last"])
+        elif op == "action":
+            n0 = clock["n"]
+            I.call_raw("cache::store::<impl store::store::Store>::set_message_with", [Ptr([store], 0), recs[tgt]["pid"], recs[tgt]["tid"], Enum("MessageStatus", 2, [], "Completed")], None)
+            for r in recs:
+                if r["present"] and r["pid"] == recs[tgt]["pid"] and r["tid"] == recs[tgt]["tid"]:
+                    n0 += 1
+                    r["status"] = z3.IntVal(2)
+                    r["utime"] = cx.sym.get("t%d" % n0, clock["last"])
+        elif op == "redo":
+            n0 = clock["n"]
+            I.call_raw("cache::store::<impl store::store::Store>::resend_error_messages", [Ptr([store], 0)], None)
+            for r in recs:
+                if r["present"]:
+                    if I.truth(r["status"] == 3, "in-error?"):
+                        n0 += 1
+                        r["retry"] = z3.IntVal(0)
+                        r["utime"] = cx.sym.get("t%d" % n0, clock["last"])
+                        r["status"] = z3.IntVal(0)
+        elif op == "clear":
+            I.call_raw("cache::store::<impl store::store::Store>::clear_error_messages", [Ptr([store], 0), none()], None)
+            for r in recs:
+                if r["present"]:
+                    # concretise: was it in error?
+                    if I.truth(r["status"] == 3, "clear-error?"):
+                        r["present"] = False
+        # compare the stored records with the reference automaton
+        for r in recs:
+            got = I.call_raw("<dyn store::DbCollection<Item = store::data::message::Message> as store::DbCollection>::find", [Ptr(msgs_coll.c, 0), r["id"]], None)
+            if not r["present"]:
+                if got.d == 0:
+                    cx.viol("retry:clear:still-present", "message %s still stored after clear" % r["id"])
+                continue
+            if got.d != 0:
+                cx.viol("retry:%s:record-lost" % op, "message %s disappeared after %s" % (r["id"], op))
+                r["present"] = False
+                continue
+            g = got.f[0]
+            cx.obligation(g.f[fi["status"]].d == r["status"], "retry:%s:status" % op, "status of %s after %s is %r, reference %r (log %s)" % (r["id"], op, g.f[fi["status"]].d, r["status"], log))
+            cx.obligation(g.f[fi["retry_times"]] == r["retry"], "retry:%s:retry_times" % op, "retry_times of %s after %s (log %s)" % (r["id"], op, log))
+            # acknowledged / completed messages never change back
+    if len(res.samples) < 2:
+        res.samples.append(dict(check="retry", log=log, decisions=list(I.path.taken)))
+
+
+def retry(I, prop, n, k, max_paths, part=None):
+    r = explore(I, "retry:n=%d,k=%d" % (n, k), lambda I, res: retry_path(I, res, prop, n, k), max_paths=max_paths, part=part)
+    if part:
+        r.name += "[%d/%d]" % part
+    return r
+
+
+# ---------------------------------------------------------------------------------------------------
+# C09: an acknowledging channel records the message before its handler runs (first delivery only)
+
+
+def channel_store_path(I, res, prop):
+    from mirsym.interp import PyFn
+    cx = Ctx(I, res, prop, "channel-store")
+    W = cx.W
+    W.boot()
+    ack = I.path.choose(2, "ack") == 1
+    chan_id = ["c1", ""][I.path.choose(2, "chan-id")]
+    retry = cx.int("retry_times", 0, 3)
+    opts = W.mk_struct("ChannelOptions", id=chan_id, ack=ack, type="*", state="*", tag="*", key="*", uses="*")
+    chan = I.call_raw("export::channel::Channel::channel", [Ptr([W.rt], 0), Ptr([opts], 0)], None)
+    chan = BoxV(chan, "arc")
+    seen = []
+    mcoll = I.call_raw("store::store::Store::messages", [Ptr(W.store.c, 0)], None)
+
+    def handler(I, args):
+        e = deref_all(args[0])
+        m = W.msg_of_event(e)
+        mf = {f[0]: i for i, f in enumerate(I.p.src.struct_fields("Message@acts/src/event/message.rs"))}
+        mid = m.f[mf["id"]]
+        got = I.call_raw("<dyn store::DbCollection<Item = store::data::message::Message> as store::DbCollection>::find", [Ptr(mcoll.c, 0), mid], None)
+        seen.append((mid, got))
+        return UNIT
+
+    I.call_raw("export::channel::Channel::on_message", [Ptr([chan], 0), PyFn(handler)], None)
+    msg = I.call_raw("<event::message::Message as std::default::Default>::default", [], None)
+    mf = {f[0]: i for i, f in enumerate(I.p.src.struct_fields("Message@acts/src/event/message.rs"))}
+    msg.f[mf["id"]] = "msg1"
+    msg.f[mf["pid"]] = "p1"
+    msg.f[mf["tid"]] = "t1"
+    msg.f[mf["retry_times"]] = retry
+    I.call_raw("event::emitter::Emitter::emit_message", [Ptr(W.emitter.c, 0), Ptr([msg], 0)], None)
+    res.witnesses += 1
+    mine = [s for s in seen if s[0] == "msg1"]
+    if len(mine) != 1:
+        cx.viol("channel:handler-calls=%d" % len(mine), "handler of the channel ran %d times for one message" % len(mine))
+        return
+    stored = mine[0][1].d == 0
+    first = I.truth(retry == 0, "first-delivery?")
+    should = ack and chan_id != "" and first
+    if should and not stored:
+        cx.viol("channel:not-stored-before-handler", "ack channel: the message was not in the store when the handler ran")
+    if stored and not should:
+        cx.viol("channel:stored-unexpectedly:ack=%s,first=%s" % (ack, first), "message stored although ack=%s chan_id=%r first=%s" % (ack, chan_id, first))
+    if stored:
+        sf = {f[0]: i for i, f in enumerate(fields_of(I, "Message"))}
+        g = mine[0][1].f[0]
+        cx.obligation(g.f[sf["status"]].d == 0, "channel:stored-status", "stored status is not created")
+        cx.obligation(g.f[sf["retry_times"]] == 0, "channel:stored-retry", "stored retry_times is not 0")
+        if g.f[sf["chan_id"]] != chan_id or g.f[sf["pid"]] != "p1" or g.f[sf["tid"]] != "t1":
+            cx.viol("channel:stored-fields", "stored message does not carry the channel id / pid / tid")
+    if len(res.samples) < 2:
+        res.samples.append(dict(check="channel-store", ack=ack, chan_id=chan_id, stored=stored))
+
+
+def channel_store(I, prop):
+    return explore(I, "channel-store", lambda I, res: channel_store_path(I, res, prop), max_paths=100)
